@@ -436,6 +436,88 @@ fn primitives(run: &mut Run) -> u64 {
     n
 }
 
+/// The exchange primitives on long bitstrings of equal and of different sizes: every segment length of a
+/// dense range (0..=1100) and around the sizes, from several start positions; genes at the ends and around
+/// the shorter genome's end.
+fn primitives_long(run: &mut Run) -> u64 {
+    let quick = run.quick();
+    let mut pairs: Vec<(usize, usize)> = vec![(1500, 1200), (1200, 1500), (1300, 1300), (2100, 2049)];
+    if !quick {
+        pairs.extend([(3000, 2500), (4097, 4096), (70_001, 69_000), (69_000, 70_001), (65_536, 65_536)]);
+    }
+    let results = mcx::par_map(pairs.len(), |k| {
+        let (l1, l2) = pairs[k];
+        let a0 = Bitstring { bits: (0..l1).map(|i| i % 2 == 0).collect() };
+        let b0 = Bitstring { bits: (0..l2).map(|i| i % 3 == 0).collect() };
+        let (lo, hi) = (l1.min(l2), l1.max(l2));
+        let mut n = 0u64;
+        let mut viols: Vec<(String, String, Value)> = vec![];
+        let mut lens: Vec<usize> = (0..=1100).collect();
+        lens.extend([2047, 2048, 2049, lo / 2, lo / 2 + 1, lo - 1, lo, lo + 1, hi - 1, hi, hi + 1, hi + 2]);
+        lens.sort();
+        lens.dedup();
+        for s in [0usize, 1, 7, lo / 2, lo - 1, lo] {
+            for d in &lens {
+                let e = s + d;
+                n += 1;
+                let (mut a, mut b) = (a0.clone(), b0.clone());
+                let r = mcx::guarded(|| a.crossover_segment(&mut b, s..e).is_ok());
+                let in_range = e <= l1 && e <= l2;
+                let what = match r {
+                    Err(p) => Some(("segment/long/panic", format!("panicked: {p}"))),
+                    Ok(ok) if ok != in_range => Some(("segment/long/verdict", format!("returned {}", if ok { "Ok" } else { "Err" }))),
+                    Ok(true) => {
+                        let mut ea = a0.clone();
+                        let mut eb = b0.clone();
+                        ea.bits[s..e].swap_with_slice(&mut eb.bits[s..e]);
+                        (a != ea || b != eb).then(|| {
+                            let first = (0..a.bits.len().max(ea.bits.len())).find(|i| a.bits.get(*i) != ea.bits.get(*i));
+                            ("segment/long/effect", format!("sizes afterwards ({}, {}), expected ({l1}, {l2}); first wrong gene of the first genome at {first:?}", a.bits.len(), b.bits.len()))
+                        })
+                    }
+                    Ok(false) => (a != a0 || b != b0).then(|| ("segment/long/changed-on-error", "genomes changed although an error was returned".to_string())),
+                };
+                if let Some((k, w)) = what {
+                    if viols.len() < 4 {
+                        viols.push((format!("crossover_{k}"), format!("crossover_segment({s}..{e}) on lengths ({l1},{l2}): {w}"), json!({"check":"C10","scenario":"segment","l1":l1,"l2":l2,"s":s,"e":e})));
+                    }
+                }
+            }
+        }
+        for i in [0usize, 1, 999, 1000, 1001, lo - 1, lo, lo + 1, hi - 1, hi, hi + 1] {
+            n += 1;
+            let (mut a, mut b) = (a0.clone(), b0.clone());
+            let r = mcx::guarded(|| a.crossover_gene(&mut b, i).is_ok());
+            let in_range = i < l1 && i < l2;
+            let what = match r {
+                Err(p) => Some(("gene/long/panic", format!("panicked: {p}"))),
+                Ok(ok) if ok != in_range => Some(("gene/long/verdict", format!("returned {}", if ok { "Ok" } else { "Err" }))),
+                Ok(true) => {
+                    let mut ea = a0.clone();
+                    let mut eb = b0.clone();
+                    std::mem::swap(&mut ea.bits[i], &mut eb.bits[i]);
+                    (a != ea || b != eb).then(|| ("gene/long/effect", "genomes afterwards differ from the addressed swap".to_string()))
+                }
+                Ok(false) => (a != a0 || b != b0).then(|| ("gene/long/changed-on-error", "genomes changed although an error was returned".to_string())),
+            };
+            if let Some((k, w)) = what {
+                viols.push((format!("crossover_{k}"), format!("crossover_gene({i}) on lengths ({l1},{l2}): {w}"), json!({"check":"C10","scenario":"gene","l1":l1,"l2":l2,"i":i})));
+            }
+        }
+        (n, viols)
+    });
+    let mut n = 0;
+    for (c, viols) in results {
+        n += c;
+        for (k, w, r) in viols {
+            run.violation(k, w, r);
+        }
+    }
+    run.bound("primitives.long_size_pairs", json!(pairs));
+    run.bound("primitives.long_segments", json!("starts {0, 1, 7, min/2, min-1, min} x every length 0..=1100 and around 2048, min/2, min, max"));
+    n
+}
+
 pub fn run(run: &mut Run) {
     if let Err(e) = mcx::rng::calibrate() {
         run.machinery(format!("calibration failed: {e}"));
@@ -500,13 +582,13 @@ pub fn run(run: &mut Run) {
     }
     run.bound("long_lengths", json!(long_lengths(quick)));
     run.bound("long_uniform_deviation_bound", json!(if quick { "1" } else { "2 up to 130 genes, 1 beyond" }));
-    let p = primitives(run);
+    let p = primitives(run) + primitives_long(run);
     run.evaluations += p;
     run.transitions += p;
     run.states = cases.len() as u64 + p;
     run.traces_validated = run.evaluations;
     run.distinct_nontrivial = nontrivial;
-    run.rule = "TwoPointXo and UniformXo in 6 flavours ([Vec;2], (Vec,Vec), [Bitstring;2], (Bitstring,Bitstring), through Recombine, behind &) x all length pairs 0..L x all grid word sequences on tagged parents (and, lengths <= 4, all sequences over the grid plus the extreme words 0 and all-ones, per-leaf oracle only); per leaf: error iff lengths differ, child gene i from a parent's position i, one contiguous segment (two-point); over all leaves: every segment [a,b) reachable, uniform mask law exactly 2^-l; plus long genomes (around 64 and 128 genes): two-point with both cut points enumerated, uniform under every stream with at most 1 (thorough 2) non-default words, per-leaf oracle + every position seen from either parent + every pair of positions seen from different parents (independence) + every segment; plus crossover_gene / crossover_segment for all indices / ranges up to length+2 on all length pairs 0..4. non-trivial = scenarios with more than one distinct child".into();
+    run.rule = "TwoPointXo and UniformXo in 6 flavours ([Vec;2], (Vec,Vec), [Bitstring;2], (Bitstring,Bitstring), through Recombine, behind &) x all length pairs 0..L x all grid word sequences on tagged parents (and, lengths <= 4, all sequences over the grid plus the extreme words 0 and all-ones, per-leaf oracle only); per leaf: error iff lengths differ, child gene i from a parent's position i, one contiguous segment (two-point); over all leaves: every segment [a,b) reachable, uniform mask law exactly 2^-l; plus long genomes (around 64 and 128 genes): two-point with both cut points enumerated, uniform under every stream with at most 1 (thorough 2) non-default words, per-leaf oracle + every position seen from either parent + every pair of positions seen from different parents (independence) + every segment; plus crossover_gene / crossover_segment for all indices / ranges up to length+2 on all length pairs 0..4, and on long bitstrings of equal and different sizes (primitives.long_size_pairs) for every segment length 0..=1100 from six start positions. non-trivial = scenarios with more than one distinct child".into();
     run.bound("max_length", json!(max_l));
     run.bound("alphabet", json!("Grid(l*(l+1)) for two-point, Grid(2) for uniform"));
     run.assumptions = vec!["Grid(l(l+1)) is exact for cut points drawn from 0..l as well as from 0..=l".into()];
